@@ -107,18 +107,20 @@ func (f *Merge) Call(s *slip.Scope, args slip.List, depth int) (result slip.Obje
 			k1 = keyFunc.Call(s, slip.List{k1}, d2)
 			k2 = keyFunc.Call(s, slip.List{k2}, d2)
 		}
-		var less bool
+		// The merge is stable, the element of the second sequence goes first
+		// only if it strictly precedes the element of the first.
+		var second bool
 		if predicate == nil {
-			less = sortLess(k1, k2)
+			second = sortLess(k2, k1)
 		} else {
-			less = predicate.Call(s, slip.List{k1, k2}, d2) != nil
+			second = predicate.Call(s, slip.List{k2, k1}, d2) != nil
 		}
-		if less {
-			rlist = append(rlist, seq1[0])
-			seq1 = seq1[1:]
-		} else {
+		if second {
 			rlist = append(rlist, seq2[0])
 			seq2 = seq2[1:]
+		} else {
+			rlist = append(rlist, seq1[0])
+			seq1 = seq1[1:]
 		}
 	}
 	switch rt {
